@@ -236,12 +236,68 @@ pub fn run(ctx: &Ctx) {
             }
         }
     });
+    stretch_layer(ctx);
+}
+
+/// Size thresholds (the reader path owns its events and reuses one buffer across look-ahead and
+/// skipping): stretched documents under piece sizes around the powers of two and single cuts at
+/// the places where the byte pattern changes.
+fn stretch_layer(ctx: &Ctx) {
+    let t = ctx.tier;
+    let st = crate::inputs::Stretch::new(crate::inputs::STRETCH_SERDE, t.pick(8, 40), t.pick(12, 16), t.pick(2, 6));
+    let targets = [0usize, 2, 3, 4, 7, 9, 16, 18, 23, 24];
+    let pieces: &[usize] = t.pick(&[7usize, 64, 4096][..], &[1usize, 2, 7, 63, 64, 65, 255, 256, 1000, 4096, 8192][..]);
+    let mut desc = st.desc.clone();
+    desc["targets"] = json!(targets.iter().map(|&t| C14_TARGETS[t]).collect::<Vec<_>>());
+    desc["schedules"] = json!(format!("whole; pieces {:?}; single cuts within 1 byte of every pattern change", pieces));
+    ctx.layer("stretch", 3, st.total(), desc, |i, acc| {
+        let mut input = Vec::new();
+        let mut marks = Vec::new();
+        st.get(i, &mut input, Some(&mut marks));
+        let Ok(doc) = String::from_utf8(input) else { return };
+        let n = doc.len();
+        let mut scheds = vec![Script::whole()];
+        for &p in pieces {
+            if n / p <= 20_000 {
+                scheds.push(Script::pieces(p));
+            }
+        }
+        let mut cuts: Vec<usize> = Vec::new();
+        for &m in &marks {
+            for c in m.saturating_sub(1)..=m + 1 {
+                if c >= 1 && c < n {
+                    cuts.push(c);
+                }
+            }
+        }
+        cuts.sort();
+        cuts.dedup();
+        for c in cuts {
+            scheds.push(Script::cuts(&[c]));
+        }
+        for &tt in &targets {
+            for sc in &scheds {
+                acc.evaluations += 1;
+                acc.traces += 1;
+                acc.transitions += 2;
+                match compare_target(tt, &doc, sc) {
+                    Ok(ok) => {
+                        if ok {
+                            acc.nt_count += 1;
+                        }
+                        acc.state(h64(&(tt, ok)));
+                    }
+                    Err(what) => acc.violation((3, i), format!("{:?} as {} with reader schedule {}: {}", lossy_head(doc.as_bytes()), C14_TARGETS[tt], sc.to_json(), lossy_head(what.as_bytes())), json!({"doc": doc, "target": tt, "script": sc.to_json()})),
+                }
+            }
+        }
+    });
 }
 
 pub fn replay(case: &Value) -> Result<(), String> {
     let doc = case["doc"].as_str().ok_or("no doc")?;
     let script = Script::from_json(&case["script"]);
-    println!("document {:?} schedule {}", doc, script.to_json());
+    println!("document {:?} schedule {}", lossy_head(doc.as_bytes()), script.to_json());
     if let Some(ty) = case.get("family_type").and_then(|t| t.as_str()) {
         compare_family(ty, doc, &script).map(|ok| println!("both {}", if ok { "Ok and equal" } else { "failed" }))
     } else {
